@@ -250,6 +250,9 @@ class RTFDocument(BaseModel):
                 "tables or figures in a single document."
             )
 
+        if self.rtf_figure is not None and not self.rtf_figure.figures:
+            raise ValueError("'rtf_figure' must contain at least one figure")
+
         # When RTFFigure is used, enforce as_table=False for footnotes and sources
         if self.rtf_figure is not None:
             if self.rtf_footnote is not None and getattr(
